@@ -125,6 +125,11 @@ pub fn is_authorized_batched(
         // check that all requested entities were loaded and return error otherwise
 
         for (id, e_option) in loaded_entities {
+            // Loaders may return more than was requested, including entities
+            // they already returned in an earlier round; those are kept as loaded.
+            if entities.contains_entity(&id) {
+                continue;
+            }
             match e_option {
                 Some(e) => {
                     entities.add_entities(
